@@ -50,6 +50,11 @@ impl Family for C17Family {
         let mut c = ceremony(backend, *r.pick(&WRAPS), gen_store_cfg(&mut r));
         c.rng_seed = r.next_u64();
         let mut actor = gen_actor(&mut r);
+        // U2F never consults the user-validation method: what that method says it can do must not matter
+        if r.chance(1, 4) {
+            actor.presence_enabled = r.bool();
+            actor.verification = *r.pick(&[None, Some(false), Some(true)]);
+        }
         let n_ops = r.range(1, 6);
         let mut n_reg = 0u32;
         let mut used_empty = false;
@@ -113,7 +118,7 @@ impl Family for C17Family {
         let c = ceremony_of(scn);
         let rec = run_and_measure(c, stats);
         let mut j = Judge::new("C17", scn, &rec);
-        for p in ["key_handle_registered_again", "registration_verified", "authentication_verified", "unknown_handle_rejected", "empty_key_handle", "key_handle_255", "frame_with_le", "save_error_reported", "authentication_for_other_application", "version_frame_with_nonzero_le"] {
+        for p in ["key_handle_registered_again", "registration_verified", "authentication_verified", "unknown_handle_rejected", "empty_key_handle", "key_handle_255", "frame_with_le", "save_error_reported", "authentication_for_other_application", "version_frame_with_nonzero_le", "registration_response_encoded_with_certificate", "authenticator_without_presence_or_verification_capability"] {
             stats.declare_probe(p);
         }
         if let Some(p) = &rec.panic {
@@ -126,6 +131,9 @@ impl Family for C17Family {
             return Vec::new();
         }
         // handle -> (application, public key) as returned by registrations
+        if !c.actors[0].presence_enabled || c.actors[0].verification != Some(true) {
+            stats.probe("authenticator_without_presence_or_verification_capability");
+        }
         let mut keys: BTreeMap<Vec<u8>, (Vec<u8>, Option<p256::ecdsa::VerifyingKey>)> = BTreeMap::new();
         let mut sig = crate::rng::Fnv::new();
         let mut nontrivial = false;
@@ -180,6 +188,20 @@ impl Family for C17Family {
                     want.extend_from_slice(&[0x90, 0x00]);
                     if r.encoded != want {
                         j.fail("register-encoding", format!("op a{}#{}: encoded registration response {} differs from 05||04||x||y||len||keyHandle||cert||sig||9000 = {}", o.actor, o.idx, hex(&r.encoded), hex(&want)));
+                    }
+                    // the field order also holds when the certificate field is filled
+                    let cert = crate::world::sim_certificate(handle.len());
+                    let mut want = vec![5u8, 4];
+                    want.extend_from_slice(&r.x);
+                    want.extend_from_slice(&r.y);
+                    want.push(handle.len() as u8);
+                    want.extend_from_slice(handle);
+                    want.extend_from_slice(&cert);
+                    want.extend_from_slice(&r.signature);
+                    want.extend_from_slice(&[0x90, 0x00]);
+                    stats.probe("registration_response_encoded_with_certificate");
+                    if r.encoded_with_cert != want {
+                        j.fail("register-encoding", format!("op a{}#{}: with a {}-byte attestation certificate attached the encoded registration response {} differs from 05||04||x||y||len||keyHandle||cert||sig||9000 = {}", o.actor, o.idx, cert.len(), hex(&r.encoded_with_cert), hex(&want)));
                     }
                     if keys.contains_key(handle) {
                         stats.probe("key_handle_registered_again");
